@@ -25,8 +25,10 @@ def run(chk):
     thorough = chk.tier == "thorough"
     cases = S.scripted_cases(chk, thorough, "C10")
     found, corr, thm = diffrun.campaign(chk, fam, cases, proof_ok, detail, signature_of, "C10", batch=150)
-    if thorough and not found:
-        found = R.run_real(chk, cfg, "C10") or found
+    # real-kernel runs: all of them in the thorough tier and whenever the scripted runs showed a broken correspondence without
+    # a failing input (a source that issues other native calls cannot be followed by the scripts); the flags scenario always
+    if not found:
+        found = R.run_real(chk, cfg, "C10", thorough or corr is not None or not proof_ok) or found
     diffrun.conclude(chk, found, corr, thm, proof_ok and driver_ok, detail, "C10 sockets: modes and lifecycle")
     chk.cov["rule"] = ("scripted differential runs of the real psocket.c against the Lean model with ALL getters, the full log of native calls "
                        "(descriptor, poll timeout, flags, option names) and the close-on-exec state compared after every call: random call sequences "
